@@ -613,6 +613,25 @@ type RangeArg struct {
 	rbs RangeArgBdrySlice
 }
 
+// A range boundary other than min / max is an integer-value or a
+// decimal-value: decimal digits without leading zeros, optionally
+// negative, optionally followed by a fraction.
+func isRangeBoundary(s string) bool {
+	if i := strings.IndexByte(s, '.'); i >= 0 {
+		frac := s[i+1:]
+		if len(frac) == 0 {
+			return false
+		}
+		for _, c := range frac {
+			if c < '0' || c > '9' {
+				return false
+			}
+		}
+		s = s[:i]
+	}
+	return isDecimalInteger(s, true)
+}
+
 func (a *RangeArg) Parse() error {
 	str := string(a.arg)
 	ErrInval := errors.New("invalid argument: " + str)
@@ -661,6 +680,12 @@ func (a *RangeArg) Parse() error {
 				r.End = rbs[1]
 			}
 		default:
+			return ErrInval
+		}
+		if (r.Start != "" || !(r.Min || r.StartMax)) && !isRangeBoundary(r.Start) {
+			return ErrInval
+		}
+		if (r.End != "" || !(r.Max || r.EndMin)) && !isRangeBoundary(r.End) {
 			return ErrInval
 		}
 		a.rbs = append(a.rbs, r)
